@@ -27,6 +27,11 @@ EXPLANATION = (
     "coordinate before it is flattened into a site number. tree_unflatten bodies with local unpacking / "
     "star-args of composite fields and row-major site lists (np.ndindex, itertools.product) are "
     "modelled. "
+    "LAT-2: hash() is called only inside __hash__ methods (a hash value is not an identity and must not "
+    "key a cache of lattice data). LAT-4 also reads bounds tests written as one boolean mask over the "
+    "neighbour coordinate arrays, neighbour lists filtered inside get_nearest_neighbors, and an adjacency "
+    "builder that create_adjacency_matrix delegates to; LAT-1 follows tree_flatten / tree_unflatten "
+    "inherited from a base class and *self.<tuple of fields> in the flattened data. "
 )
 NOT_DECIDED = (
     "value-dependent graph facts (regularity / irreflexivity for particular side lengths, degree "
